@@ -121,13 +121,14 @@ func checkIPv4(data) (r)
 // AAAA record: textual IPv6 address (RFC 4291, hexadecimal groups only) of the global unicast space. In terms of the
 // colon-separated fragments F: every fragment is empty or a group of 1..4 hex digits; an interior empty fragment is
 // the "::" and there is at most one; a leading (trailing) empty fragment is only allowed as part of a leading
-// (trailing) "::"; without "::" there are exactly 8 groups, with it at most 8 fragments.
+// (trailing) "::"; without "::" there are exactly 8 groups, with it at most 7 (8 fragments, or 9 when the "::"
+// leads or trails, where it yields two empty fragments).
 // Global unicast as the contract documents it (IANA): 2000::/3 without 2002::/16 (6to4), 3ffe::/16 and above,
 // and inside 2001::/16 without 2001:0::/23 (first 0x200 second groups) and 2001:db8::/32 (documentation).
 pure hexdig(c Int) Bool = digit(c) || (c >= 97 && c <= 102) || (c >= 65 && c <= 70)
 pure group(f Bytes) Bool = len(f) >= 1 && len(f) <= 4 && (forall i Int {f[i]} :: 0 <= i && i < len(f) ==> hexdig(f[i]))
 pure gap(F L_NB, i Int) Bool = 1 <= i && i <= len(F) - 2 && len(F[i]) == 0
-pure wf6(F L_NB) Bool = 3 <= len(F) && len(F) <= 8
+pure wf6(F L_NB) Bool = 3 <= len(F) && len(F) <= 9 && (len(F) == 9 ==> len(F[0]) == 0 || len(F[8]) == 0)
      && (forall i Int {F[i]} :: 0 <= i && i < len(F) ==> len(F[i]) == 0 || group(F[i]))
      && (forall i Int, j Int {F[i], F[j]} :: gap(F, i) && gap(F, j) ==> i == j)
      && (len(F[0]) == 0 ==> len(F[1]) == 0)
@@ -140,7 +141,11 @@ pure ipv6(data Bytes) Bool = 2 <= len(data) && len(data) <= 39 && wf6(split(data
 
 func checkIPv6(data) (r)
   pure
+  nofault given ipv6(data) && len(split(data, ":")) <= 8
   ensures [C18] r ==> ipv6(data)
+  // RFC 4291 lets "::" stand for a single group also at the ends ("2001:2:3:4:5:6:7::", nine fragments); the contract
+  // accepts that only in the middle ("1:2:3::5:6:7:8")
+  ensures [C18] finding F_C18_ipv6_single_group_at_end (len(split(data, ":")) == 9) ipv6(data) ==> r
   loop 0
     invariant 2 <= len(data) && len(data) <= 39 && l == len(fragments) && fragments == split(data, ":") && 3 <= l && l <= 8 && len(nums) == 8
     invariant forall j Int {fragments[j]} :: 0 <= j && j < $i ==> len(fragments[j]) == 0 || group(fragments[j])
